@@ -4,6 +4,7 @@ import numpy as np
 
 from toqito.channel_ops import kraus_to_choi
 from toqito.channel_props import is_completely_positive, is_trace_preserving
+from toqito.helper import channel_dim
 
 
 def is_quantum_channel(
@@ -72,9 +73,13 @@ def is_quantum_channel(
     """
     # If the variable `phi` is provided as a list, we assume this is a list
     # of Kraus operators.
+    dim = None
     if isinstance(phi, list):
+        # Keep the input and output dimensions of the Kraus operators: they cannot be recovered from the Choi matrix.
+        dim_in, dim_out, _ = channel_dim(phi, compute_env_dim=False)
+        dim = [int(dim_in[0]), int(dim_out[0])]
         phi = kraus_to_choi(phi)
 
     # A valid quantum channel is a superoperator that is both completely
     # positive and trace-preserving.
-    return is_completely_positive(phi, rtol, atol) and is_trace_preserving(phi, rtol, atol)
+    return is_completely_positive(phi, rtol, atol) and is_trace_preserving(phi, rtol, atol, dim=dim)
